@@ -38,7 +38,9 @@ func Episode(r *rng.R) []string {
 	tn := func() string { return pick(r, "t1", "t1", "t2", "-") }
 	ty := func() string { return pick(r, "latency", "latency", "timeout", "limit_data", "slicer", "bogus", "-") }
 	tox := func() string { return pick(r, "-", "-", "0", "1", "0.5", "0.3") }
-	listen := func() string { return pick(r, "127.0.0.1:$A", "127.0.0.1:$B", "localhost:$A", ":$B", "127.0.0.1:$C", "noport") }
+	listen := func() string {
+		return pick(r, "127.0.0.1:$A", "127.0.0.1:$B", "localhost:$A", ":$B", "127.0.0.1:$C", "noport")
+	}
 	ops = append(ops, fmt.Sprintf("%s create p1 127.0.0.1:$A u:1", pick(r, "c", "cli")))
 	n := 4 + r.Intn(20)
 	for i := 0; i < n; i++ {
